@@ -185,6 +185,30 @@ def check_one(out: Outcome, case) -> bool:
     return True
 
 
+def check_suffixed(out: Outcome, sub) -> None:
+    m, rom, sfx, d = sub["m"], sub["rom"], sub["sfx"], sub["d"]
+    model = busmodel.builtin(rom)
+    r = model.rom_ranges()[0]
+    S = ((r.first + 1) << 16) | (r.win_lo + 0x200)
+    opcode = isa.BY_KEY.get((m, "rel8"))
+    pad = lambda n: (".db " + ", ".join(["0xea"] * n) + "\n") if n > 0 else ""
+    if d <= -2:
+        src = f"*=0x{S:06x}\ntg:\n" + pad(-d - 2) + f"{m}.{sfx} tg\nlb_after:\n.dl lb_after\n"
+        n_before = -d - 2
+    else:
+        src = f"*=0x{S:06x}\n{m}.{sfx} tg\n" + pad(d) + "tg:\nlb_after:\n.dl lb_after\n"
+        n_before = 0
+    res = driver.assemble_mem(src, rom=rom)
+    if not res.accepted:
+        return  # a suffix on a branch may be refused
+    flat = b"".join(dd for _, dd in res["blocks"])
+    after = S + (n_before + 2 if d <= -2 else 2 + d)
+    want = bytes([0xEA] * n_before + [opcode, d & 0xFF]) + (bytes([0xEA] * d) if d > 0 else b"") + after.to_bytes(3, "little")
+    if flat != want or dict(res["labels"]).get("lb_after") != after:
+        out.bad(f"suffixed:{'layout' if flat[:len(want) - 3] == want[:-3] else 'bytes'}", sub,
+                f"{rom}: `{m}.{sfx}` (displacement {d}) emitted {flat[-8:].hex()} with lb_after={dict(res['labels']).get('lb_after')}, expected {want[-8:].hex()} / {after:#x}\n{src[:200]}")
+
+
 def check_deep(out: Outcome, sub) -> None:
     m, rom, depth = sub["m"], sub["rom"], sub["depth"]
     model = busmodel.builtin(rom)
@@ -249,6 +273,14 @@ def run_case(case) -> Outcome:
                     if check_one(out, sub):
                         ev += 1
                         nt += 1
+        # a size suffix on a branch (accepted by the grammar): such a branch is the two-byte instruction all the same -- or is
+        # rejected; it never takes more room in the layout than it emits
+        for sfx in ("b", "w", "l", "W"):
+            for d in (-128, -4, 0, 127):
+                sub = {"t": "suffixed", "m": case["m"], "rom": case["rom"], "sfx": sfx, "d": d}
+                check_suffixed(out, sub)
+                ev += 1
+                nt += 1
         # the target label is defined many scope levels above the branch, and a label of the same name exists at the top
         # level (in range too): the displacement is the one to the nearest enclosing definition, at any depth
         for depth in (2, 8, 16, 17, 31, 32, 33, 34, 40, 70):
@@ -262,6 +294,9 @@ def run_case(case) -> Outcome:
         out.sample = {"mnemonic": case["m"], "rom": case["rom"], "cases": ev, "example_source": b[0].splitlines()[:3] + ["..."] + b[0].splitlines()[-1:], "expect": str(b[2])}
         return out
     out = Outcome(evals=1, nontrivial=True)
+    if case.get("t") == "suffixed":
+        check_suffixed(out, case)
+        return out
     if case.get("t") == "deep":
         check_deep(out, case)
         return out
